@@ -548,11 +548,8 @@ impl Epoch {
                 }
                 prev_idx = next_idx;
                 // If we are about to parse an hours offset, we need to set the sign now.
-                if cur_token == Token::OffsetHours {
-                    if char == '-' {
-                        offset_sign = -1;
-                    }
-                    prev_idx += 1;
+                if cur_token == Token::OffsetHours && char == '-' {
+                    offset_sign = -1;
                 }
             }
         }
